@@ -44,6 +44,26 @@ PROPS = {
         },
         "kani": ["lane_fits_push_lane"],
     },
+    "C05": {
+        "title": "Select follows its documented semantics (one entry of the Select instruction, function-level)",
+        "units": {
+            "select": (None, ALL),
+            "coldpath": (
+                [
+                    "Executor::get_process",
+                    "Executor::get_process_mut",
+                    "Executor::complete_select",
+                    "Executor::handle_select_timeout",
+                    "Executor::handle_select_process",
+                    "Executor::ensure_select_start_time",
+                    "Executor::handle_select_continuation",
+                ],
+                ALL,
+            ),
+            "heap": (["Executor::retain", "Executor::release", "Executor::push_value", "Executor::pop_value"], ALL),
+        },
+        "kani": [],
+    },
     "C06": {
         "title": "Binary heap accounting (function-level)",
         "units": {
